@@ -35,21 +35,36 @@ impl PartitionSectorMap {
     pub fn len(&self) -> (r: usize) ensures r as nat == self.view().dom().len() { unimplemented!() }
 }
 
-// ---- bitfield_queue.rs BitFieldQueue (AMT epoch -> bitfield): the deadline's expiration queue. Its CONTENT is not modelled (the type of
-// prelude/miner_partition_assumed.rs carries no view); these calls return SOME result and touch nothing but the queue itself. ----------------
+// ---- bitfield_queue.rs BitFieldQueue (AMT quantised epoch -> bitfield): the deadline's expiration queue, modelled in
+// prelude/miner_deadline_state_partition_assumed.rs as the set of (quantised epoch, value) pairs -------------------------------------------------
 impl BitFieldQueue {
-    /// add_to_queue_values(epoch, values): the unit passes the slice itself instead of `slice.iter().copied()` (Verus has no iterator adapters)
+    /// add_to_queue_values(epoch, values) = add_to_queue(epoch, &BitField::try_from_bits(values)?): the unit passes the slice itself instead of
+    /// `slice.iter().copied()` (Verus has no iterator adapters)
     #[verifier::external_body]
-    pub fn add_to_queue_values(&mut self, epoch: ChainEpoch, values: &[u64]) -> (r: anyhow::Result<()>) { unimplemented!() }
-    /// add_many_to_queue_values(iter of (epoch, value))
+    pub fn add_to_queue_values(&mut self, epoch: ChainEpoch, values: &[u64]) -> (r: anyhow::Result<()>)
+        ensures
+            final(self).quant == old(self).quant,
+            r.is_ok() ==> forall|e: ChainEpoch, v: u64| #![trigger final(self).amt.view().contains((e, v))]
+                final(self).amt.view().contains((e, v)) <==> old(self).amt.view().contains((e, v)) || (e == bfq_quant(old(self).quant, epoch) && values@.contains(v)),
+    { unimplemented!() }
+    /// add_many_to_queue_values(iter of (epoch, value)): only ever adds (which pairs: not modelled)
     #[verifier::external_body]
-    pub fn add_many_to_queue_values(&mut self, values: &Vec<(ChainEpoch, u64)>) -> (r: anyhow::Result<()>) { unimplemented!() }
-    /// pop_until(epoch): (the union of the popped bitfields, whether anything was removed) — SOME set of partition indices
+    pub fn add_many_to_queue_values(&mut self, values: &Vec<(ChainEpoch, u64)>) -> (r: anyhow::Result<()>)
+        ensures final(self).quant == old(self).quant, r.is_ok() ==> old(self).amt.view().subset_of(final(self).amt.view()),
+    { unimplemented!() }
+    /// pop_until(until): removes every entry with key <= until and returns the union of their values; `modified` iff some entry was removed
     #[verifier::external_body]
-    pub fn pop_until(&mut self, until: ChainEpoch) -> (r: anyhow::Result<(BitField, bool)>) { unimplemented!() }
-    /// cut(to_cut): re-indexes the queue after partitions were removed
+    pub fn pop_until(&mut self, until: ChainEpoch) -> (r: anyhow::Result<(BitField, bool)>)
+        ensures
+            final(self).quant == old(self).quant,
+            r.is_ok() ==> forall|v: u64| #![trigger r->Ok_0.0@.contains(v)] r->Ok_0.0@.contains(v) <==> exists|e: ChainEpoch| e <= until && #[trigger] old(self).amt.view().contains((e, v)),
+            r.is_ok() ==> forall|e: ChainEpoch, v: u64| #![trigger final(self).amt.view().contains((e, v))]
+                final(self).amt.view().contains((e, v)) <==> old(self).amt.view().contains((e, v)) && e > until,
+            r.is_ok() && !r->Ok_0.1 ==> final(self).amt.view() == old(self).amt.view() && r->Ok_0.0@ == Set::<u64>::empty(),
+    { unimplemented!() }
+    /// cut(to_cut): re-indexes the queue after partitions were removed (not modelled)
     #[verifier::external_body]
-    pub fn cut(&mut self, to_cut: &BitField) -> (r: anyhow::Result<()>) { unimplemented!() }
+    pub fn cut(&mut self, to_cut: &BitField) -> (r: anyhow::Result<()>) ensures final(self).quant == old(self).quant { unimplemented!() }
 }
 
 // ---- Deadline::record_proven_sectors: `post_partitions.iter().map(|p| p.index)` (iterator adapters are outside Verus' subset) ---------------------
@@ -57,6 +72,11 @@ pub open spec fn vx_post_index_seq(ps: Seq<PoStPartition>) -> Seq<u64> { Seq::ne
 /// the body IS the original expression, collected
 #[verifier::external_body]
 pub fn vx_post_indexes(ps: &[PoStPartition]) -> (r: Vec<u64>) ensures r@ == vx_post_index_seq(ps@) { ps.iter().map(|p| p.index).collect() }
+
+// ---- Deadline::add_sectors: `updates.extend(new_sectors.iter().map(|s| (s.expiration, partition_idx)))` (iterator adapters are outside Verus'
+// subset, and the sector infos are opaque here): only the list of (expiration epoch, partition) pairs handed to the expiration queue grows ----
+#[verifier::external_body]
+pub fn vx_extend_expiration_updates(updates: &mut Vec<(ChainEpoch, u64)>, new_sectors: &[SectorOnChainInfo], partition_idx: u64) { unimplemented!() }
 
 // ---- fvm_ipld_bitfield ---------------------------------------------------------------------------------------------------------------------
 impl BitField {
